@@ -21,9 +21,8 @@
        `parseDef` of Python's `def` header subset, the lexer `lexPy`: `stub_init_text_parses`, `stub_helper_text_parses`,
        `stub_method_text_roundtrip`, `lex_render_roundtrip`, `stub_*_text_accepted`, `stub_*_dupfree_iff`, `type_info_wf`;
     3. both sides as models of code (Sem/StubDefine.lean over Sem/Define.lean's class objects, any hierarchy shape):
-       `stubD_*`, `diamond_names_counterexample` (open finding "names-mismatch:constant-shadowed-in-diamond").
-  Open findings with a kernel-checked instance here: "uncompilable-stub:parameter-name-clash"
-  (`name_clash_counterexample`, exact region `stub_helper_dupfree_iff`), "names-mismatch:constant-shadowed-in-diamond".
+       `stubD_*`, `stubD_sig_names_in_stub_reachable` (every reachable world), `fixed_diamond_names_example`.
+  No open finding; the former counterexamples are `fixed_*` examples (5f45702, 9cb14af, f0f7ce1).
   History: until /repo commit 08ea09e a *required* `AnyOf[X, None]` field was rendered `Optional[X] = None`
   (finding "required-optional-default", fixed); `required_optional_fixed_example` is the former counterexample.
 -/
@@ -32,6 +31,7 @@ import TypedpyModel.Lemmas.StubSort
 import TypedpyModel.Lemmas.StubText
 import TypedpyModel.Lemmas.StubLex
 import TypedpyModel.Lemmas.StubDefine
+import TypedpyModel.Lemmas.DefineSig
 namespace Typedpy.C16
 open Typedpy.Stub
 
@@ -722,10 +722,11 @@ theorem stubD_diamond_example :
   decide
 
 /-- `class Y: n = Constant(3), y` / `class P(Y): p` / `class Z(Y): n: String, z` / `class B(P, Z): b` /
-    `class D(B): d`: `B` takes `n` for a constant (the `getattr` inside `StructMeta.__new__` answers from `P`'s
-    `_field_by_name`), so `B.__signature__` has no `n`; `D` resolves `n` to `Z`'s Field, so the stub of `D` has the
-    keyword `n` while `D.__signature__`, built from `B`'s, has not: finding "names-mismatch:constant-shadowed-in-diamond"
-    (reproduced on the real code by the `stub` suite, `diamond_cases`) -/
+    `class D(B): d` — the former counterexample of the repaired finding "names-mismatch:constant-shadowed-in-diamond"
+    (fix f0f7ce1): until then `B` took `n` for a Constant (`getattr` inside `StructMeta.__new__` answered from `P`'s
+    `_field_by_name`), `B.__signature__` dropped `n`, and the stub of `D` had a keyword `n` that `D.__signature__` had
+    not.  Constant-ness is now read from the class dicts along the MRO: `n` is `Z`'s Field in `B` and in `D`, on both
+    sides. -/
 def dqY : ClassSrc := { name := "Y", bases := ["Structure"], entries := [dCst "n", dFld "y"] }
 def dqP : ClassSrc := { name := "P", bases := ["Y"], entries := [dFld "p"] }
 def dqZ : ClassSrc := { name := "Z", bases := ["Y"], entries := [dFld "n", dFld "z"] }
@@ -733,13 +734,26 @@ def dqB : ClassSrc := { name := "B", bases := ["P", "Z"], entries := [dFld "b"] 
 def dqD : ClassSrc := { name := "D", bases := ["B"], entries := [dFld "d"] }
 def dqW : World := defAll World.init [dqY, dqP, dqZ, dqB]
 
-theorem diamond_names_counterexample :
-    namesCovered dqW dqD = false ∧
-    "n" ∈ (stubInitD true dqW dqD).params.map (·.name) ∧ "n" ∉ (sigParamsD (Typedpy.sigOf dqW dqD)).map (·.name) ∧
-    ¬ (∀ n, n ∈ (stubInitD true dqW dqD).params.map (·.name) ↔ n ∈ (sigParamsD (Typedpy.sigOf dqW dqD)).map (·.name)) := by
-  refine ⟨by decide, by decide, by decide, fun h => ?_⟩
-  have := (stubD_names_agree_iff true dqW dqD).mp h
-  revert this
-  decide
+theorem fixed_diamond_names_example :
+    namesCovered dqW dqD = true ∧
+    "n" ∈ (stubInitD true dqW dqD).params.map (·.name) ∧ "n" ∈ (sigParamsD (Typedpy.sigOf dqW dqD)).map (·.name) ∧
+    (∀ n, n ∈ (stubInitD true dqW dqD).params.map (·.name) ↔ n ∈ (sigParamsD (Typedpy.sigOf dqW dqD)).map (·.name)) := by
+  refine ⟨by decide, by decide, by decide, ?_⟩
+  exact (stubD_names_agree_iff true dqW dqD).mpr (by decide)
+
+/-! #### every reachable world (all histories of class statements, Lemmas/DefineSig.lean's invariant) -/
+
+/-- in every world reachable by successful class statements, for every class statement that passes the checks:
+    every name of the runtime signature is a keyword of the stub `__init__` (the stub never lacks a parameter the
+    constructor signature has) — any hierarchy shape, no hypothesis on the class records -/
+theorem stubD_sig_names_in_stub_reachable {O : Oracles} {w : World} (hr : Reachable O w) {src : ClassSrc} (apd : Bool)
+    (hc : runChecks (checks O w src) = .ok ()) (hfresh : w.find src.name = none) (n : String)
+    (hn : n ∈ (sigParamsD (Typedpy.sigOf w src)).map (·.name)) :
+    n ∈ (stubInitD apd w src).params.map (·.name) := by
+  have hs := c14_build_sigOk (reachable_ok hr) (reachable_sigOk hr) hc hfresh
+  have hmem : n ∈ (Typedpy.sigOf w src).req ∨ n ∈ (Typedpy.sigOf w src).opt := by
+    simpa [sigParamsD, List.map_append, List.map_map, Function.comp_def] using hn
+  have := hs.names n hmem
+  exact (c16_stubD_names w src n).mpr ⟨this.1, (c16_const_isNone w src n).mp this.2⟩
 
 end Typedpy.C16
